@@ -631,6 +631,11 @@ func (c *boundsCtx) intDefFacts(g *dgraph, v ssa.Value, k string, seen map[ssa.V
 				S := "len(" + c.key(x.Call.Args[0]) + ")"
 				g.addLE(term{k, 0}, term{S, 0})
 				g.addLE(term{zeroSym, 0}, term{S, 0})
+				if sepLen >= 1 {
+					// a match of a non-empty separator starts at most at len(S)-1, and "not found" is -1:
+					// r+1 <= len(S) holds unconditionally (so S[r+1:] is always in range)
+					g.addLE(term{k, 1}, term{S, 0})
+				}
 				if g.ne[k] == nil {
 					g.ne[k] = map[int64]bool{}
 				}
